@@ -140,6 +140,15 @@ fn fnv(s: &str) -> u64 {
     h
 }
 
+/// an answer shortened for a failure message: the head (variable, LENGTH, first coefficients) and the number of tokens
+fn brief(s: &str) -> String {
+    if s.len() <= 400 {
+        return s.to_string();
+    }
+    let head: String = s.chars().take(160).collect();
+    format!("{head} ... [{} tokens in all]", s.split_whitespace().count())
+}
+
 fn strip_ws(s: &str) -> String {
     s.chars().filter(|c| !c.is_whitespace()).collect()
 }
@@ -339,7 +348,7 @@ pub fn run_batch(lines: &[String]) -> Vec<Obs> {
                     let mut verdict = if *v == rt {
                         Ok(())
                     } else {
-                        Err(format!("macro value {v} differs from the runtime value {rt}{}", if rt.starts_with("err") { lrm_note(&c.text) } else { String::new() }))
+                        Err(format!("macro value {} differs from the runtime value {}{}", brief(v), brief(&rt), if rt.starts_with("err") { lrm_note(&c.text) } else { String::new() }))
                     };
                     if let Some(t) = &token_text[k] {
                         if strip_ws(t) != strip_ws(&c.text) && verdict.is_ok() {
@@ -662,6 +671,136 @@ fn generate_hardening(seed: u64, thorough: bool, emit: &mut dyn FnMut(String)) {
         (2, "-0x + 0y"), (2, "-0.0x^2y - 0"), (2, "x - x"), (2, "-0/5x"), (2, "0/7xy^-0"), (2, "x^-0 + y^0.0 - z^-0.0"), (2, "-0"), (2, "x^0/5"),
     ] {
         emit_case(emit, parser, text);
+    }
+    // ---- (2d) round 5, category M: ALL-ZERO / CANCELLING RESULTS AT EVERY SIZE.  Every coefficient of the result exactly 0
+    //      - zero written as a coefficient (`0 x^N`, `0.0x^N`, `-0 x^N`: `0x` is the hex prefix and does not tokenize) or terms
+    //      that cancel (`x^N - x^N`, `p - p`) - and results with a single non-zero coefficient (at the top, at the bottom, next
+    //      to the top), at every degree 0..40 and at 65, 129, 257, 513, 1023, 1024, 1025, 1500, 4096, 65536 (the largest dense power): the
+    //      runtime parser keeps the formal degree (N + 1 coefficients), so the macro has to as well - S compares the vector
+    //      LENGTH along with every coefficient.  The same texts go to the multivariate macro (term lists that cancel to
+    //      nothing or to a zero term), with two-variable variants.
+    {
+        let zero_forms = |v: char, d: usize| -> Vec<String> {
+            vec![
+                format!("0 {v}^{d}"),
+                format!("0.0{v}^{d}"),
+                format!("0.0{v}^{d} + 0"),
+                format!("-0 {v}^{d}"),
+                format!("0 {v}^{d} - 0.0{v}"),
+                format!("0.000{v}^{d} + 0 {v}^2 - 0"),
+                format!("{v}^{d} - {v}^{d}"),
+                format!("-{v}^{d} + {v}^{d}"),
+                format!("2.5{v}^{d} - 2.5{v}^{d} + 0"),
+                format!("3{v}^{d} + {v}^2 - 7 - 3{v}^{d} - {v}^2 + 7"),
+                format!("{v}^{d} + {v}^{d} - 2{v}^{d}"),
+            ]
+        };
+        let single_forms = |v: char, d: usize| -> Vec<String> {
+            vec![
+                format!("{v}^{d}"),
+                format!("0 {v}^{d} + 4{v}^2"),
+                format!("{v}^{d} - {v}^{d} + {v}"),
+                format!("0.0{v}^{d} + 1"),
+                format!("-0.5{v}^{d}"),
+                format!("{v}^{d} - {v}^{d} + 3{v}^{}", d.saturating_sub(1)),
+                format!("0.1{v}^{d} + 0.2{v}^{d} - 0.3{v}^{d}"),
+                format!("7 - 7 + 0 {v}^{d} - 0.25{v}^{}", d / 2),
+            ]
+        };
+        let multi_forms = |v: char, w: char, d: usize| -> Vec<String> {
+            vec![
+                format!("{v}^{d}{w} - {v}^{d}{w}"),
+                format!("0 {v}^{d}{w}^2"),
+                format!("0.0{v}^{d}{w} + 0"),
+                format!("{v}^{d}{w} - {w}{v}^{d}"),
+                format!("{v}^{d}{w}^{d} - {v}^{d}{w}^{d} + 0 {w}"),
+                format!("0 {v}^{d} + 0 {w}^{d} + 2{v}{w}"),
+            ]
+        };
+        let vars = ['x', 'y', 't', 'z', 'k', 'λ', 'Q', 'u'];
+        let seconds = ['a', 'n', 'w'];
+        let sd = seed as usize;
+        for d in 0..=40usize {
+            let v = vars[(d + sd) % vars.len()];
+            let w = seconds[(d + sd) % seconds.len()];
+            let (z, s, m) = (zero_forms(v, d), single_forms(v, d), multi_forms(v, w, d));
+            if thorough {
+                for t in z.iter().chain(s.iter()) {
+                    emit_case(emit, 1, t);
+                    emit_case(emit, 2, t);
+                }
+                for t in &m {
+                    emit_case(emit, 2, t);
+                }
+            } else {
+                emit_case(emit, 1, &z[(d + sd) % z.len()]);
+                emit_case(emit, 1, &z[(3 * d + sd + 5) % z.len()]);
+                emit_case(emit, 1, &s[(d + sd) % s.len()]);
+                emit_case(emit, 2, &z[(d + sd + 2) % z.len()]);
+                emit_case(emit, 2, &s[(d + sd + 3) % s.len()]);
+                emit_case(emit, 2, &m[(d + sd) % m.len()]);
+            }
+        }
+        // (between 40 and 1023: just over the powers of two - a length threshold anywhere shows at every larger degree)
+        let mut big: Vec<usize> = vec![1023, 1024, 1025, 1500, 4096, 65, 129, 257, 513];
+        if thorough {
+            big.extend([41, 63, 64, 100, 127, 128, 255, 256, 300, 511, 512, 777]);
+            big.extend([1000, 1022, 1026, 2047, 2048, 2049, 3000, 8192, 10000, 30000, 32767, 32768, 65535]);
+            for _ in 0..6 {
+                big.push(1024 + rng.below(64512) as usize);
+            }
+        }
+        for (bi, &d) in big.iter().enumerate() {
+            let v = vars[(bi + sd) % vars.len()];
+            let w = seconds[(bi + sd) % seconds.len()];
+            let (z, s, m) = (zero_forms(v, d), single_forms(v, d), multi_forms(v, w, d));
+            // quick: every all-zero form at 1024 / 1025 / 1500 and four of them elsewhere; half of the single-coefficient forms
+            // (thorough: every form up to 5000, a third of them beyond - 65537 coefficients cost a second of compilation)
+            let all = thorough && d <= 5000;
+            for (k, t) in z.iter().enumerate() {
+                if all || d <= 1500 && d >= 1024 || (k + bi + sd) % 3 == 0 {
+                    emit_case(emit, 1, t);
+                }
+                if all || (k + bi + sd) % 4 == 0 {
+                    emit_case(emit, 2, t);
+                }
+            }
+            for (k, t) in s.iter().enumerate() {
+                if all || (k + bi + sd) % (if thorough { 3 } else { 2 }) == 0 {
+                    emit_case(emit, 1, t);
+                }
+                if all || (k + bi + sd) % 4 == 1 {
+                    emit_case(emit, 2, t);
+                }
+            }
+            for (k, t) in m.iter().enumerate() {
+                if thorough || (k + bi + sd) % 3 == 0 {
+                    emit_case(emit, 2, t);
+                }
+            }
+        }
+        // the largest dense power (65537 coefficients: about a second of compilation each)
+        {
+            let d = 65536usize;
+            let v = vars[(sd + 1) % vars.len()];
+            let (z, s, m) = (zero_forms(v, d), single_forms(v, d), multi_forms(v, 'a', d));
+            if thorough {
+                for t in z.iter().chain(s.iter()) {
+                    emit_case(emit, 1, t);
+                    emit_case(emit, 2, t);
+                }
+                for t in &m {
+                    emit_case(emit, 2, t);
+                }
+            } else {
+                // one zero written as a coefficient, one cancellation, one single coefficient
+                emit_case(emit, 1, &z[sd % 6]);
+                emit_case(emit, 1, &z[6 + sd % 5]);
+                emit_case(emit, 1, &s[1 + sd % 7]);
+                emit_case(emit, 2, &z[(sd + 3) % z.len()]);
+                emit_case(emit, 2, &m[sd % m.len()]);
+            }
+        }
     }
     let decades: Vec<i32> = (-320..=308).collect();
     let per = if thorough { 1 } else { 4 };
